@@ -12,7 +12,7 @@
 (* and a needle given as a sequence of (already normalised) code points.   *)
 (* Positions are 1-based here; the code reports 0-based indices.           *)
 (***************************************************************************)
-EXTENDS Chars
+EXTENDS Chars, SlabLayout
 
 Max2(a, b) == IF a > b THEN a ELSE b
 Min2(a, b) == IF a < b THEN a ELSE b
@@ -51,21 +51,29 @@ MaxBonus(paths) == Max2(BonusWhite(paths), BonusDelim(paths))
 (* AlignScore: the score of one alignment idx (strictly increasing         *)
 (* 1-based positions, one per needle character).                           *)
 (***************************************************************************)
-RECURSIVE AS(_, _, _, _, _, _)
-AS(K, idx, j, score, first, paths) ==
-  IF j > Len(idx) THEN score
-  ELSE LET i == idx[j]
-           b == BonusAt(K, i, paths) IN
-    IF j = 1 THEN AS(K, idx, 2, ScoreMatch + FirstCharMultiplier * b, b, paths)
-    ELSE IF i = idx[j-1] + 1 THEN
-        \* consecutive: at least BonusConsecutive, inherits the run's first bonus,
-        \* a boundary bonus larger than the run's bonus takes over
-        LET f == IF b >= BonusBoundary /\ b > first THEN b ELSE first IN
-        AS(K, idx, j+1, score + ScoreMatch + Max2(Max2(b, f), BonusConsecutive), f, paths)
-    ELSE \* a gap of g = i - idx[j-1] - 1 skipped characters: 3 for the first, 1 for each further one
-        AS(K, idx, j+1, Sat(score, GapStart + GapExt * (i - idx[j-1] - 2)) + ScoreMatch + b, b, paths)
+\* one step of the left fold over the alignment; st = [s |-> running score, f |-> bonus of the current run]
+ASStep(K, idx, j, st, paths) ==
+  LET i == idx[j]
+      b == BonusAt(K, i, paths) IN
+  IF j = 1 THEN [s |-> ScoreMatch + FirstCharMultiplier * b, f |-> b]
+  ELSE IF i = idx[j-1] + 1 THEN
+      \* consecutive: at least BonusConsecutive, inherits the run's first bonus,
+      \* a boundary bonus larger than the run's bonus takes over
+      LET f2 == IF b >= BonusBoundary /\ b > st.f THEN b ELSE st.f IN
+      [s |-> st.s + ScoreMatch + Max2(Max2(b, f2), BonusConsecutive), f |-> f2]
+  ELSE \* a gap of g = i - idx[j-1] - 1 skipped characters: 3 for the first, 1 for each further one,
+       \* the running score floored at zero
+      [s |-> Sat(st.s, GapStart + GapExt * (i - idx[j-1] - 2)) + ScoreMatch + b, f |-> b]
 
-AlignScore(K, idx, paths) == IF Len(idx) = 0 THEN 0 ELSE AS(K, idx, 1, 0, 0, paths)
+\* the fold is evaluated by halving the index range: recursion depth log2(n) (TLC's cost for a recursion of
+\* depth d grows like d^2 and needles reach several thousand characters)
+RECURSIVE ASFold(_, _, _, _, _, _)
+ASFold(K, idx, a, b, st, paths) ==
+  IF a = b THEN ASStep(K, idx, a, st, paths)
+  ELSE LET m == (a + b) \div 2 IN ASFold(K, idx, m + 1, b, ASFold(K, idx, a, m, st, paths), paths)
+
+AlignScore(K, idx, paths) ==
+  IF Len(idx) = 0 THEN 0 ELSE ASFold(K, idx, 1, Len(idx), [s |-> 0, f |-> 0], paths).s
 
 \* the u16 range of the return type: a conforming implementation may saturate but never wrap
 U16Max == 65535
@@ -89,8 +97,19 @@ GreedyFrom(N, needle, j, from) ==    \* forward-greedy alignment of needle[j..] 
   ELSE LET p == FirstAt(N, needle[j], from) IN
        IF p = 0 THEN <<0>> ELSE <<p>> \o GreedyFrom(N, needle, j + 1, p + 1)
 
+\* position of the last needle character in the forward-greedy alignment of needle[a..b] in N[from..], or 0.
+\* Evaluated by halving the needle range (recursion depth log2 of the needle length).
+RECURSIVE GreedyEnd(_, _, _, _, _)
+GreedyEnd(N, needle, a, b, from) ==
+  IF a = b THEN FirstAt(N, needle[a], from)
+  ELSE LET m == (a + b) \div 2
+           p == GreedyEnd(N, needle, a, m, from) IN
+       IF p = 0 THEN 0 ELSE GreedyEnd(N, needle, m + 1, b, p + 1)
+
+\* needle occurs in order in N (leftmost-greedy scan succeeds)
 IsSubseq(needle, N) ==
-  LET g == GreedyFrom(N, needle, 1, 1) IN Len(g) = Len(needle) /\ (Len(g) = 0 \/ g[Len(g)] # 0)
+  \/ Len(needle) = 0
+  \/ Len(needle) <= Len(N) /\ GreedyEnd(N, needle, 1, Len(needle), 1) # 0
 
 \* the set of all alignments (for small inputs only)
 RECURSIVE Aligns(_, _, _)
@@ -119,25 +138,34 @@ Contiguous(idx) == \A k \in 1..Len(idx) - 1 : idx[k+1] = idx[k] + 1
 (***************************************************************************)
 NoCell == [ok |-> FALSE, s |-> 0, cb |-> 0]
 
+\* rows are made concrete tuples (SubSeq(.., 1, n)); a lazily evaluated function would be re-evaluated on
+\* every access by the next row
 FirstRow(N, K, c, paths) ==
-  [j \in 1..Len(N) |->
+  SubSeq([j \in 1..Len(N) |->
      IF N[j] = c THEN [ok |-> TRUE, s |-> ScoreMatch + FirstCharMultiplier * BonusAt(K, j, paths),
                        cb |-> BonusAt(K, j, paths)]
-     ELSE NoCell]
+     ELSE NoCell], 1, Len(N))
 
-RECURSIVE PRow(_, _, _)
-PRow(M, j, acc) ==   \* acc = P cells of columns 1..j-1
-  IF j > Len(M) THEN acc
-  ELSE LET pm == IF j = 1 THEN NoCell ELSE M[j-1]
-           pp == IF j = 1 THEN NoCell ELSE acc[j-1]
-           a == IF pm.ok THEN Sat(pm.s, GapStart) ELSE -1
-           b == IF pp.ok THEN Sat(pp.s, GapExt) ELSE -1
-           v == Max2(a, b) IN
-       PRow(M, j + 1, Append(acc, IF v < 0 THEN NoCell ELSE [ok |-> TRUE, s |-> v, cb |-> 0]))
+\* P[k] = best score with column k skipped: max(M[k-1] - 3, P[k-1] - 1), floored at zero.
+PCell(pm, pp) ==
+  LET a == IF pm.ok THEN Sat(pm.s, GapStart) ELSE -1
+      b == IF pp.ok THEN Sat(pp.s, GapExt) ELSE -1
+      v == Max2(a, b) IN
+  IF v < 0 THEN NoCell ELSE [ok |-> TRUE, s |-> v, cb |-> 0]
+
+\* P cells of columns a..b given P[a-1]; evaluated by halving the range (recursion depth log2, see AlignScore)
+RECURSIVE PRange(_, _, _, _)
+PRange(M, a, b, prev) ==
+  IF a = b THEN <<PCell(IF a = 1 THEN NoCell ELSE M[a-1], prev)>>
+  ELSE LET m == (a + b) \div 2
+           left == PRange(M, a, m, prev) IN
+       left \o PRange(M, m + 1, b, left[Len(left)])
+
+PRow(M) == IF Len(M) = 0 THEN <<>> ELSE PRange(M, 1, Len(M), NoCell)
 
 NextRow(N, K, M, c, paths) ==
-  LET P == PRow(M, 1, <<>>) IN
-  [j \in 1..Len(N) |->
+  LET P == PRow(M) IN
+  SubSeq([j \in 1..Len(N) |->
      IF j = 1 \/ N[j] # c THEN NoCell
      ELSE LET m == M[j-1]
               p == P[j-1]     \* P[k] = best score with column k skipped (built from M[k-1], P[k-1])
@@ -148,7 +176,7 @@ NextRow(N, K, M, c, paths) ==
               ss == p.s + b IN
           IF m.ok /\ (~p.ok \/ sm > ss) THEN [ok |-> TRUE, s |-> sm + ScoreMatch, cb |-> cb1]
           ELSE IF p.ok THEN [ok |-> TRUE, s |-> ss + ScoreMatch, cb |-> b]
-          ELSE NoCell]
+          ELSE NoCell], 1, Len(N))
 
 RECURSIVE Rows(_, _, _, _, _, _)
 Rows(N, K, needle, i, M, paths) ==
@@ -211,5 +239,6 @@ LemmaNaiveDecides(N, K, needle, paths) ==
 LemmaOneChar(N, K, needle, paths) ==
   Len(needle) = 1 => NaiveRec(N, K, needle, paths) = BestScore(N, K, needle, paths)
 LemmaGreedyIsAlign(N, needle) ==
-  IsSubseq(needle, N) => GreedyFrom(N, needle, 1, 1) \in Aligns(N, needle, 1)
+  /\ IsSubseq(needle, N) => GreedyFrom(N, needle, 1, 1) \in Aligns(N, needle, 1)
+  /\ IsSubseq(needle, N) <=> (LET g == GreedyFrom(N, needle, 1, 1) IN Len(g) = Len(needle) /\ g[Len(g)] # 0)
 =============================================================================
